@@ -251,6 +251,21 @@ def integration_facts(prog: Program, fw: str, ci: ClassInfo) -> Tuple[Dict[str, 
         if dn.id in cfg.reachable(cfg.entry, avoid_edges=passing):
             problems.append(('GATE-DOM', 'dispatch reachable without passing the gate', dn.line,
                              f'{fw}: the dispatcher can be called for a request that did not pass the media-type gate'))
+    # nothing that can answer the request in another way runs before the gate: the body is read and decoded (and an undecodable one
+    # answered with 400) only for a request that passed it — otherwise "any other media type is refused with 415" fails for an
+    # unsupported type whose body happens not to decode
+    for c, e, name in gates:
+        passing = [x for x in cfg.succ[c.id] if x.label in ('T', 'F') and x is not e]
+        before = cfg.reachable(cfg.entry, avoid_edges=passing)
+        early = [m_ for m_ in cfg.stmt_nodes() if m_.id in before and m_ is not c and
+                 (isinstance(m_.ast, (ast.Raise, ast.Return)) and status_of(prog, f, m_.ast) == 400 or
+                  any(isinstance(y, ast.Call) and isinstance(y.func, ast.Attribute) and y.func.attr in ('text', 'get_data', 'decode', 'body', 'read')
+                      for y in ast.walk(m_.ast) if not isinstance(m_.ast, (ast.FunctionDef, ast.AsyncFunctionDef))))]
+        if early:
+            m_ = early[0]
+            problems.append(('GATE-DOM', 'the body is read / decoded before the media-type gate', m_.line,
+                             f'{fw}: `{norm(m_.ast)[:80]}` runs for a request that has not passed the media-type gate: a request of an unsupported '
+                             f'media type whose body does not decode is answered 400 (or fails on an unknown charset) instead of 415'))
     # anything executed before the gate that dispatches?
     # ---- decode error → 400 ---------------------------------------------------------------------------
     bad = [n for n in cfg.stmt_nodes() if isinstance(n.ast, (ast.Raise, ast.Return)) and n.handler is not None]
